@@ -163,7 +163,7 @@ func c16r1(c *Ctx) {
 					st = append(st, cfgx.StartAfter(e, 0))
 				}
 				var leak *cfgx.Visit
-				for _, v := range gd.Explore(st, cfgx.Walker{
+				for _, v := range fd.ExploreFeasible(st, cfgx.Walker{
 					AtNode: func(n *cfgx.Node, s cfgx.State) (cfgx.State, bool) { return s, !releases(n) },
 					OnEdge: func(e *cfgx.Edge, s cfgx.State) (cfgx.State, bool) { return s, !cut[e] },
 				}) {
